@@ -182,7 +182,7 @@ func init() {
 		Title: "Left-recursive expression grammars evaluate like a reference evaluator",
 		Plan: func(tier string, seed int64) []run.Job {
 			var jobs []run.Job
-			n, per := 16, 250
+			n, per := 16, 600
 			depth := 6
 			if tier == "thorough" {
 				n, per, depth = 64, 1200, 10
